@@ -11,7 +11,7 @@ import (
 	"sort"
 	"strconv"
 
-	_ "verif/mc/checks"
+	"verif/mc/checks"
 	"verif/mc/engine"
 )
 
@@ -32,6 +32,13 @@ func main() {
 		i, _ := strconv.Atoi(os.Args[4])
 		n, _ := strconv.Atoi(os.Args[5])
 		engine.WorkerMain(os.Args[2], os.Args[3], i, n, os.Args[6])
+	case "racepass":
+		if len(os.Args) < 4 {
+			usage()
+		}
+		n, _ := strconv.Atoi(os.Args[2])
+		r, _ := strconv.Atoi(os.Args[3])
+		os.Exit(checks.RacePassMain(n, r))
 	case "replay":
 		if len(os.Args) < 3 {
 			usage()
